@@ -6,7 +6,7 @@ Decided (structural, necessary conditions only):
   C15.3 the value cached under sha256(aug_msg) is pair(hash_to_g2(aug_msg), pk) of the same pair
   C15.4 every verifier rejects the infinity key (explicit is_inf, or delegates each key to a blst primitive that does)
 """
-from ..mir import Body, strip_all, show
+from ..mir import Body, strip_all, show, callee_name
 from . import util as U
 
 GROW = ("insert", "entry", "get_refresh", "extend", "insert_before", "to_front", "to_back")
@@ -247,8 +247,13 @@ def c15_3(ctx):
     val_t = strip_all(b.operand_term(t["args"][2]))
     # key = Sha256::finalize(hasher); hasher history = [update(&aug_msg)]
     ok_key = key_t[0] == "call" and U.flat(key_t[1]).endswith("Sha256::finalize")
-    hl = b.local_named("hasher")
-    al = b.local_named("aug_msg")
+    # the hasher and the augmented message are found by what they are, not by their names: the local created by Sha256::new,
+    # and the local created by `to_vec` that is then extended
+    hl = [l for l, ds in b.defs().items() if isinstance(l, int) and len(ds) == 1 and ds[0][0] == "c" and
+          U.flat(callee_name(ds[0][3]["f"])).endswith("Sha256::new")]
+    al = [l for l, ds in b.defs().items() if isinstance(l, int) and len(ds) == 1 and ds[0][0] == "c" and
+          U.flat(callee_name(ds[0][3]["f"])).endswith("to_vec") and
+          any(U.flat(n).endswith("extend_from_slice") for _, n, _, _ in b.mut_history(l))]
     if len(hl) != 1 or len(al) != 1:
         return ctx.missing(R, "verify:locals", "hasher/aug_msg locals not found")
     hh = b.mut_history(hl[0])
